@@ -526,17 +526,32 @@ def _kclass(k, n):
     return "k<0" if k < 0 else "k=0" if k == 0 else "k>=n" if k >= n else "0<k<n"
 
 
+def special_point(c, px, odd):
+    """the curve point with abscissa px (taken mod p) and the requested y parity, or None when there is none.
+    Only used on cofactor-1 curves, where every curve point lies in the prime-order group."""
+    ys = c.ys_for_x(px % c.p)
+    if not ys:
+        return None
+    return (px % c.p, ys[odd % len(ys)])
+
+
 def o_big_mul(case):
     spec, kp, k, k2 = case["curve"], case["kp"], case["k"], case["k2"]
     c = REF[spec]
     n = c.n
     P = c.mul_fast(kp, c.G)
+    if case.get("px") is not None and spec in ("k1", "r1"):
+        sp = special_point(c, case["px"], case.get("py_odd", 0))
+        if sp is not None:
+            P = sp
     want = c.mul_fast(k, P)
     want2 = c.mul_fast(k2, P)
     wsum = c.mul_fast(k + k2, P)
     if c.add(want, want2) != wsum:
         raise AssertionError("reference: (k+k2)P != kP + k2P")
     labels = [curve_label(spec), _kclass(k, n), "|k|>=2" if abs(k) >= 2 else "|k|<2", "P=G" if kp == 1 else "P=inf" if P is None else "P-other"]
+    if P is not None and (P[0] < 16 or P[0] > c.p - 16 or P[1] < 16):
+        labels.append("P-small-coordinate")
     for name, cobj in reps(spec):
         accel = ecgen.backend_of(cobj) == "openssl" if isinstance(cobj, Generator) else False
         p = mkpt(cobj, P)
@@ -562,13 +577,18 @@ def o_big_mul(case):
 
 
 def s_big_mul():
-    def mk(cv, kp, k, k2, pg, noorder):
+    def mk(cv, kp, k, k2, pg, noorder, px, odd):
         if pg == 0:
             kp = 1
-        return {"curve": cv, "kp": kp, "k": k, "k2": k2, "noorder": noorder and 0 <= k < (1 << 260)}
+        d = {"curve": cv, "kp": kp, "k": k, "k2": k2, "noorder": noorder and 0 <= k < (1 << 260)}
+        if pg == 1 and cv in ("k1", "r1"):
+            # points with extreme coordinates (x = 0, 1, 2, ..., p-1, ...) rather than multiples of G
+            d["px"], d["py_odd"] = px, odd
+        return d
     return st.sampled_from(["k1", "k1", "r1", "r1", "bls"]).flatmap(lambda cv: st.builds(
         mk, st.just(cv), ecgen.scalars(REF[cv].n), ecgen.big_scalars(REF[cv].n), ecgen.big_scalars(REF[cv].n),
-        st.integers(0, 5), st.sampled_from([False, False, False, True])))
+        st.integers(0, 5), st.sampled_from([False, False, False, True]),
+        st.sampled_from([0, 1, 2, 3, 4, 5, 6, 7, 8, 9, 10, -1, -2, -3, -4, -5]), st.integers(0, 1)))
 
 
 # ------------------------------------------------------------------------------------------------ big curves: generator, blinding
@@ -658,7 +678,22 @@ def s_shared():
 
 # ------------------------------------------------------------------------------------------------ sub-checks
 
+def cases_special_points(tier):
+    """points with extreme coordinates on the cofactor-1 production curves, a few scalars each"""
+    for cv in ("k1", "r1"):
+        n = REF[cv].n
+        for px in list(range(0, 12)) + [-1, -2, -3, -4, -5, -6]:
+            for odd in (0, 1):
+                if special_point(REF[cv], px, odd) is None:
+                    continue
+                for k, k2 in ((1, 2), (2, n - 1), (3, -1), (n - 1, n), (n + 1, 5), (-2, 7)):
+                    yield {"curve": cv, "kp": 1, "k": k, "k2": k2, "noorder": False, "px": px, "py_odd": odd}
+
+
 SUBCHECKS = [
+    SubCheck("special_points_mul", o_big_mul, cases=cases_special_points, exhaustive=True,
+             nontrivial=lambda c, l: True,
+             rule="secp256k1 / secp256r1 points whose abscissa is 0..11 or p-1..p-6 (where such a point exists), both parities, scalars 1, 2, 3, n-1, n+1, -2 (and 2, n-1, -1, n, 5, 7 as second scalar): same oracle as big_mul on every representation"),
     SubCheck("toy_add_exhaustive", o_toy_add, cases=cases_toy_add, exhaustive=True,
              rule="every toy curve (p = 3 mod 4 prime < 100, thorough < 200; prime order; up to 3 (thorough 4) curves per p), as Curve+Point and as "
                   "Generator: every ordered pair (P,Q) including infinity, P=Q, P=-Q (one case = one P, all Q): P+Q, Q+P, curve.add, -Q, P-Q, "
